@@ -6,7 +6,7 @@ usage: mutsweep.py [-j N] [-n COUNT] [-s SEED] [--files a.py,b.py]      -> /tmp/
 This is a development aid, not a registered check."""
 import sys, os, re, json, random, subprocess, shutil, threading, queue, ast, time
 
-VERIF = '/verif'
+VERIF = os.path.dirname(os.path.dirname(os.path.abspath(__file__)))   # the tree this script belongs to (a snapshot under vp run works on itself)
 args = sys.argv[1:]
 N, COUNT, SEED, FILES = 8, 120, 1, None
 while args:
